@@ -1393,31 +1393,31 @@ func (c *coord) writeEvidence(violations int, replays []string) {
 		"C19": "one run = one single-client history on one generated container (rule map, AST-node map, constraint map, string set) compared with a reference insertion-ordered dictionary after every operation; non-trivial = the history mutates at least twice and contains a delete, a filter or a failing callback; distinct = different (operation sequence incl. arguments, container, constructor)",
 	}
 	cov := map[string]any{
-		"evaluations":         runs,
-		"distinct_nontrivial": len(shapes),
-		"rule":                rules[c.prop],
-		"samples":             samples,
-		"runs_plain_build":    runs - raceRuns,
-		"runs_race_build":     raceRuns,
-		"operations":          ops,
+		"evaluations":                  runs,
+		"distinct_nontrivial":          len(shapes),
+		"rule":                         rules[c.prop],
+		"samples":                      samples,
+		"runs_plain_build":             runs - raceRuns,
+		"runs_race_build":              raceRuns,
+		"operations":                   ops,
 		"simulated_time_logical_steps": steps,
-		"context_switches":    switches,
+		"context_switches":             switches,
 		"distinct_interleavings_by_event_log_hash": len(inter),
-		"fault_kinds_fired":   faults,
-		"reach_probes":        probes,
-		"not_judged":          skipped,
-		"distinct_projects":   projects,
-		"reference_processes": goldens * 2,
-		"failpoint_sites_total":   sites,
-		"failpoint_sites_reached": len(siteHit),
-		"linearizability_checks":  lin,
-		"linearizability_inconclusive": linU,
-		"runs_per_hour":       int(float64(runs) / wall * 3600),
-		"seeds":               fmt.Sprintf("VERIF_SEED=%d; run i of worker w uses hash(VERIF_SEED, property, w, i)", c.seed),
-		"workers":             c.nworkers,
-		"components":          "real: the whole library, encoding/json, regexp, reggen, fmt; wrapped (real primitive + simulator gate / yield point): sync.Mutex, sync.RWMutex, sync.Once, sync.WaitGroup, sync.Map, sync/atomic; replaced by a simulator-owned model: sync.Pool contents policy, sync.Cond, goroutine start and channel operations of the library (simulated tasks), map iteration order at range statements and sync.Map.Range, %p rendering, the clock (time.Now/Since/Until/Sleep), runtime.NumCPU/GOMAXPROCS; std sync.Pool never reuses under -race (overlay) so std pools add no happens-before edges; not simulated (the library has none): network, disk, timers",
-		"replays":             replays,
-		"exhaustive":          false,
+		"fault_kinds_fired":                        faults,
+		"reach_probes":                             probes,
+		"not_judged":                               skipped,
+		"distinct_projects":                        projects,
+		"reference_processes":                      goldens * 2,
+		"failpoint_sites_total":                    sites,
+		"failpoint_sites_reached":                  len(siteHit),
+		"linearizability_checks":                   lin,
+		"linearizability_inconclusive":             linU,
+		"runs_per_hour":                            int(float64(runs) / wall * 3600),
+		"seeds":                                    fmt.Sprintf("VERIF_SEED=%d; run i of worker w uses hash(VERIF_SEED, property, w, i)", c.seed),
+		"workers":                                  c.nworkers,
+		"components":                               "real: the whole library, encoding/json, regexp, reggen, fmt; wrapped (real primitive + simulator gate / yield point): sync.Mutex, sync.RWMutex, sync.Once, sync.WaitGroup, sync.Map, sync/atomic; replaced by a simulator-owned model: sync.Pool contents policy, sync.Cond, goroutine start and channel operations of the library (simulated tasks), map iteration order at range statements and sync.Map.Range, %p rendering, the clock (time.Now/Since/Until/Sleep), runtime.NumCPU/GOMAXPROCS; std sync.Pool never reuses under -race (overlay) so std pools add no happens-before edges; not simulated (the library has none): network, disk, timers",
+		"replays":                                  replays,
+		"exhaustive":                               false,
 	}
 	if len(c.infra) > 0 {
 		cov["inconclusive"] = c.infra
